@@ -23,7 +23,7 @@ def tla_hist(out):
     t = t.replace("<<", "[").replace(">>", "]")
     t = re.sub(r"(\w+) \|->", r'"\1":', t)
     t = t.replace("TRUE", "true").replace("FALSE", "false")
-    t = re.sub(r'\[("\w+":)', r"{\1", t)
+    t = re.sub(r'\[\s*("\w+":)', r"{\1", t)
     res, stack = [], []
     for ch in t:
         if ch in "{[":
